@@ -8,11 +8,25 @@ def failure_blocks(fn):
     (bool fns), None (Option fns), or `from_residual` (the `?` error arm)."""
     out = set()
     rty = fn.locals[0]
+    # locals whose whole value is moved into the return place (a tail call's result, an inlined helper's return slot)
+    ra = {0}
+    changed = True
+    while changed:
+        changed = False
+        for b in fn.bbs:
+            if b['cleanup']:
+                continue
+            for st in b['s']:
+                if st[0][0] in ra and not st[0][1] and st[1][0] == 'use' and st[1][1][0] != 'k' and not st[1][1][1][1]:
+                    src = st[1][1][1][0]
+                    if src not in ra and fn.locals[src] == fn.locals[st[0][0]]:
+                        ra.add(src)
+                        changed = True
     for i, b in enumerate(fn.bbs):
         if b['cleanup']:
             continue
         for st in b['s']:
-            if st[0][0] == 0 and not st[0][1]:
+            if st[0][0] in ra and not st[0][1]:
                 rv = st[1]
                 if rv[0] == 'agg' and rv[1].endswith('Result::Err'):
                     out.add(i)
@@ -21,7 +35,7 @@ def failure_blocks(fn):
                 elif rv[0] == 'use' and rv[1] == ['k', 'false'] and rty == 'bool':
                     out.add(i)
         t = b['t']
-        if t[0] == 'call' and t[4][0] == 0 and not t[4][1] and t[1].endswith('from_residual'):
+        if t[0] == 'call' and t[4][0] in ra and not t[4][1] and t[1].endswith('from_residual'):
             out.add(i)
     return out
 
@@ -170,20 +184,13 @@ def holder_only_release(rep, rule, fns, table_field, owner_field, what):
         for k, c in enumerate(rm):
             n += 1
             how = None
-            for (a, s_) in A.must_pass_edges(f, c.bb):
-                l = switch_local(f, a)
-                d = A.single_def(defs, l) if l is not None else None
-                if not d or d[2] != 'st' or d[3][1][0] != 'bin' or d[3][1][1] not in ('Eq', 'Ne'):
+            for at in must_pass_atoms(fns, f, defs, c.bb):
+                if at.kind != 'cmp' or at.op != 'Eq':
                     continue
-                t = f.bbs[a]['t']
-                if not all(v == '0' for v, _ in t[2]):
-                    continue
-                taken_nonzero = (s_ == t[3])
-                want_nonzero = d[3][1][1] == 'Eq'
-                sides = [A.backward_slice(f, [d[3][1][i]], defs) for i in (2, 3)]
+                sides = at.side_slices()
                 has_owner = any(any(x.endswith(owner_field) for x in sl.fields) for sl in sides)
                 has_param = any(sl.params for sl in sides)
-                if has_owner and has_param and taken_nonzero == want_nonzero:
+                if has_owner and has_param:
                     how = 'behind %s == <parameter>' % owner_field.split('::')[-1]
             if how is None and c.generic.endswith('::remove') and len(c.args) > 1 and c.args[1][0] != 'k':
                 sl = A.backward_slice(f, [c.args[1]], defs)
@@ -525,7 +532,8 @@ def size_policies(f, lenient=False):
             S = A.backward_slice(f, [rv[si]], defs)
             if not (any(re.search(r'from_(le|be|ne)_bytes$|::len$', x) for x in S.calls) or val_sig(f, defs, rv[si])[0] == 'len'):
                 continue
-            O = A.backward_slice(f, [rv[oi]], defs)
+            # the bound may be built from another buffer's length: stop at len() — what filled that buffer is not part of the bound
+            O = A.backward_slice(f, [rv[oi]], defs, cut_calls=[('re', r'::len$')])
             # a bound may depend on the length of another buffer (a ratio policy), not on a scalar / config parameter
             scalar_params = [p_ for p_ in O.params if not re.search(r'\[|Vec<|str\b|Bytes', f.locals[p_])]
             if not lenient and (O.fields or scalar_params or [x for x in O.calls if not _ARITH.search(x)]):
@@ -618,4 +626,252 @@ def merge_compare_sites(f):
         if bx and by and not (bx & by):
             a_, b_ = sorted(bx)[0], sorted(by)[0]
             out.append((line, a_, b_, a_ in sorts, b_ in sorts))
+    return out
+
+
+# ----------------------------------------------------------------------------------------------------------------
+# Wrappers: behaviour-preserving refactorings move a check / a lock / a persist call into a private helper.
+# A rule that needs "passed X" must accept "passed a helper that returns success only after X".
+
+def returns_success_without(g, cut_edges):
+    """can g return success (Ok / Some / true / a plain value) with these edges cut?"""
+    rt = g.locals[0] if g.locals else ''
+    if rt == 'bool':
+        vals = A.return_bool_values(g, cut_edges=cut_edges)
+        return (True in vals) or (None in vals)
+    return bool(success_return_reachable(g, [0], cut_edges=cut_edges))
+
+
+def guard_wrappers(cg, prefix, local_edges, rounds=3):
+    """names of crate functions (under `prefix`) that return success only through local_edges(g, W): a fixpoint over
+    helper-of-helper. local_edges(g, W) must include the Ok-edges of g's calls to functions already in W (use wrapper_ok_edges)."""
+    W = set()
+    for _ in range(rounds):
+        new = set()
+        for n, g in cg.fns.items():
+            if n in W or not n.startswith(prefix) or '{closure' in n:
+                continue
+            e = local_edges(g, W)
+            if e and not returns_success_without(g, e):
+                new.add(n)
+        if not new:
+            break
+        W |= new
+    return W
+
+
+def wrapper_ok_edges(f, W, uses=None):
+    """Ok / true / Some edges of f's calls to functions in W"""
+    out = set()
+    if not W:
+        return out
+    uses = uses or A.Uses(f)
+    for c in A.calls(f):
+        if c.resolved in W:
+            out |= A.call_outcome(f, c, uses).ok
+    return out
+
+
+def transitive_calls(cg, f, blocks, matcher, prefix, depth=3):
+    """callee names matching `matcher` performed in the given blocks of f, directly or through crate-local callees
+    (under `prefix`, followed to `depth`); closures created in those blocks count as called there."""
+    out = set()
+    seen = set()
+
+    def walk(name, d):
+        if name in seen or name not in cg.fns:
+            return
+        seen.add(name)
+        g = cg.fns[name]
+        for c in A.calls(g):
+            if matcher(c.resolved):
+                out.add(c.resolved)
+            elif d > 0 and c.resolved.startswith(prefix):
+                walk(c.resolved, d - 1)
+        for n2 in cg.fns:
+            if n2.startswith(name + '::{closure'):
+                walk(n2, d)
+    bl = set(blocks) if blocks is not None else None
+    for c in A.calls(f):
+        if bl is not None and c.bb not in bl:
+            continue
+        if matcher(c.resolved):
+            out.add(c.resolved)
+        elif c.resolved.startswith(prefix):
+            walk(c.resolved, depth - 1)
+    # closures created in those blocks
+    for i, b in enumerate(f.bbs):
+        if bl is not None and i not in bl:
+            continue
+        for st in b['s']:
+            if st[1][0] == 'agg' and '{closure' in st[1][1]:
+                for n2 in cg.fns:
+                    if st[1][1].endswith(n2) or n2.endswith(st[1][1]):
+                        walk(n2, depth - 1)
+    return out
+
+
+# ----------------------------------------------------------------------------------------------------------------
+# Condition atoms: what is known to hold on an edge, looking through named bool locals, `a && b`, negation and
+# closure predicates (`opt.is_some_and(|x| x.f == y)`, `iter.any(..)`), so that a rule does not depend on whether
+# the test is written inline, bound to a name first, or passed as a closure.
+
+NEG = {'Eq': 'Ne', 'Ne': 'Eq', 'Lt': 'Ge', 'Ge': 'Lt', 'Gt': 'Le', 'Le': 'Gt'}
+CLOSURE_PRED = re.compile(r'::(is_some_and|is_ok_and|is_none_or|any|all|map_or|map_or_else|filter|find|position|take_while|skip_while|retain)$')
+
+
+class Atom:
+    __slots__ = ('kind', 'op', 'a', 'b', 'fn', 'defs', 'call', 'pol')
+
+    def __init__(self, kind, fn, defs, op=None, a=None, b=None, call=None, pol=True):
+        self.kind, self.fn, self.defs, self.op, self.a, self.b, self.call, self.pol = kind, fn, defs, op, a, b, call, pol
+
+    def side_slices(self):
+        return [A.backward_slice(self.fn, [x], self.defs) for x in (self.a, self.b)]
+
+    def __repr__(self):
+        if self.kind == 'cmp':
+            return 'Atom(%s in %s)' % (self.op, short(self.fn.name))
+        return 'Atom(%s%s in %s)' % ('' if self.pol else '!', short(self.call.resolved), short(self.fn.name))
+
+
+def _closure_of(fns, f, defs, op):
+    """the closure body an operand refers to (the operand is the closure value or a reference to it)"""
+    if op[0] == 'k':
+        m = re.search(r'([\w:<>, ]+::\{closure#\d+\}(::\{closure#\d+\})*)', op[1])
+        return fns.get(m.group(1)) if m else None
+    l = op[1][0]
+    for _ in range(4):
+        d = A.single_def(defs, l)
+        if not d or d[2] != 'st':
+            break
+        rv = d[3][1]
+        if rv[0] == 'agg' and '{closure' in rv[1]:
+            for n in fns:
+                if n == rv[1] or rv[1].endswith(n) or n.endswith(rv[1]):
+                    return fns[n]
+            return None
+        if rv[0] in ('use', 'ref'):
+            pl = rv[1] if rv[0] == 'ref' else (rv[1][1] if rv[1][0] != 'k' else None)
+            if pl is None:
+                break
+            l = pl[0]
+            continue
+        break
+    return None
+
+
+def implied_atoms(fns, f, defs, local, pol=True, depth=0):
+    """atoms that hold whenever `local` (a bool) has value `pol`"""
+    if depth > 6:
+        return []
+    dl = [d for d in defs.defs.get(local, []) if d[2] != 'callmut']
+    if not dl:
+        return []
+    if len(dl) > 1:
+        # `a && b` / `a || b`: one side is a constant
+        consts = [d for d in dl if d[2] == 'st' and d[3][1][0] == 'use' and d[3][1][1][0] == 'k']
+        others = [d for d in dl if d not in consts]
+        cvals = {bool(A._const_val(d[3][1][1][1])) for d in consts if A._const_val(d[3][1][1][1]) is not None}
+        if len(others) == 1 and cvals == {not pol}:
+            d = others[0]
+            out = _atoms_of_def(fns, f, defs, d, pol, depth)
+            # … and the tests that select that definition
+            for (a_, s_) in A.must_pass_edges(f, d[0]):
+                l2 = switch_local(f, a_)
+                t = f.bbs[a_]['t']
+                if l2 is not None and all(v == '0' for v, _ in t[2]):
+                    out += implied_atoms(fns, f, defs, l2, s_ == t[3], depth + 1)
+            return out
+        return []
+    return _atoms_of_def(fns, f, defs, dl[0], pol, depth)
+
+
+def _atoms_of_def(fns, f, defs, d, pol, depth):
+    if d[2] == 'st':
+        rv = d[3][1]
+        if rv[0] == 'bin' and rv[1] in NEG:
+            return [Atom('cmp', f, defs, op=rv[1] if pol else NEG[rv[1]], a=rv[2], b=rv[3])]
+        if rv[0] == 'un' and rv[1] == 'Not' and rv[2][0] != 'k' and not rv[2][1][1]:
+            return implied_atoms(fns, f, defs, rv[2][1][0], not pol, depth + 1)
+        if rv[0] == 'use' and rv[1][0] != 'k' and not rv[1][1][1]:
+            return implied_atoms(fns, f, defs, rv[1][1][0], pol, depth + 1)
+        return []
+    if d[2] == 'call':
+        c = d[3]
+        out = [Atom('call', f, defs, call=c, pol=pol)]
+        name = c.resolved.split('::')[-1]
+        if CLOSURE_PRED.search(c.resolved) or CLOSURE_PRED.search(c.generic):
+            positive = (name in ('is_some_and', 'is_ok_and', 'any', 'map_or', 'map_or_else') and pol) or (name in ('all', 'is_none_or') and not pol and False)
+            if positive:
+                for a in c.args[1:]:
+                    g = _closure_of(fns, f, defs, a)
+                    if g is not None and g.locals and g.locals[0] == 'bool':
+                        gd = A.Defs(g)
+                        out += implied_atoms(fns, g, gd, 0, True, depth + 1)
+        elif re.search(r'PartialEq(<.*>)?>?::(eq|ne)$', c.generic) and len(c.args) >= 2:
+            is_eq = c.generic.endswith('eq')
+            out.append(Atom('cmp', f, defs, op='Eq' if (is_eq == pol) else 'Ne', a=c.args[0], b=c.args[1]))
+        return out
+    return []
+
+
+def must_pass_atoms(fns, f, defs, bb):
+    """atoms that hold on every path from the entry to block bb"""
+    out = []
+    for (a, s_) in A.must_pass_edges(f, bb):
+        l = switch_local(f, a)
+        t = f.bbs[a]['t']
+        if l is None or not all(v == '0' for v, _ in t[2]):
+            continue
+        out += implied_atoms(fns, f, defs, l, s_ == t[3])
+    return out
+
+
+def slice_fields_deep(fns, sl, prefix, depth=2):
+    """fields read on a slice, including those read inside crate-local helpers the slice calls (a value obtained through
+    `self.last_entry_index_and_term()` depends on what that helper reads)"""
+    out = set(sl.fields)
+    seen = set()
+    work = [(x, depth) for x in sl.calls]
+    for cname in getattr(sl, 'closures', ()):
+        for n in fns:
+            if n == cname or cname.endswith(n) or n.endswith(cname):
+                work.append((n, depth))
+    while work:
+        n, d = work.pop()
+        if n in seen or n not in fns or not (n.startswith(prefix) or n.startswith('<')):
+            continue
+        seen.add(n)
+        g = fns[n]
+        out |= set(A.field_reads(g).keys())
+        for n2 in fns:
+            if n2.startswith(n + '::{closure'):
+                work.append((n2, d))
+        if d > 0:
+            for c in A.calls(g):
+                work.append((c.resolved, d - 1))
+    return out
+
+
+ORDER_ASSUMING = re.compile(r'::(binary_search|binary_search_by|binary_search_by_key|partition_point|dedup|dedup_by|dedup_by_key)$')
+
+
+def order_assuming_calls(f):
+    """calls that are only correct on a sorted slice (binary_search*, partition_point, dedup*), with whether the receiver is
+    sorted earlier in the same function. Returns [(call, receiver_root, sorted_here)]."""
+    out = []
+    defs = None
+    sorts = None
+    for c in A.calls(f):
+        if c.exp or not ORDER_ASSUMING.search(c.resolved) or not c.args or c.args[0][0] == 'k':
+            continue
+        defs = defs or A.Defs(f)
+        if sorts is None:
+            sorts = set()
+            for x in A.calls(f):
+                if re.search(r'::(sort|sort_unstable|sort_by|sort_by_key|sort_unstable_by|sort_unstable_by_key)$', x.resolved) and x.args:
+                    sorts.add(_buffer_root(f, defs, x.args[0]))
+        root = _buffer_root(f, defs, c.args[0])
+        out.append((c, root, root in sorts))
     return out
